@@ -346,6 +346,8 @@ def build(ip: dict, seed: int) -> World:
         else:
             raise RuntimeError("factory gives no test with a call on the SUT")
         e.chrom_factory.log.clear()
+        if str(ip.get("mode", "")).startswith("M"):  # focus modes: members answer coverage queries too
+            t2.add_coverage_function(e.tfun["g1"])
         s1 = tsc.TestSuiteChromosome(e.chrom_factory)
         s1.add_test_case_chromosome(t2)
         for n in (("f1", "f2") if ip["regF"] else ()):
